@@ -487,6 +487,7 @@ pub fn bodies(tier: &str) -> Vec<BodySpec> {
     v.push(b(VisBody { name: "2 batch writers|snapshot [focus:commit-path]", kind: Kind::Plain, workers: 0, keyspaces: vec!["x", "y"], initial: init.clone(), prerotate: vec![], threads: vec![vec![Batch(vec![("x", "a", "1"), ("y", "b", "1")])], vec![Batch(vec![("x", "b", "1"), ("y", "a", "1")])], reader.clone()], finals: Finals::None }, if q { 2 } else { 3 }, if q { 5.0 } else { 300.0 }));
     v.push(b(VisBody { name: "sw-tx same key in two keyspaces|snapshot", kind: Kind::Sw, workers: 0, keyspaces: vec!["x", "y"], initial: init.clone(), prerotate: vec![], threads: vec![vec![Tx(vec![("x", "a", "1"), ("y", "a", "1")])], vec![SnapRead(vec![("x", "a"), ("y", "a")])]], finals: Finals::None }, 1, if q { 3.0 } else { 60.0 }));
     v.push(b(VisBody { name: "occ-tx same key in two keyspaces|snapshot", kind: Kind::Occ, workers: 0, keyspaces: vec!["x", "y"], initial: init.clone(), prerotate: vec![], threads: vec![vec![Tx(vec![("x", "b", "1"), ("y", "b", "1")])], vec![SnapRead(vec![("x", "b"), ("y", "b")])]], finals: Finals::None }, 1, if q { 3.0 } else { 60.0 }));
+    v.push(b(VisBody { name: "batch|snapshot|ingest-into-empty-z", kind: Kind::Plain, workers: 0, keyspaces: vec!["x", "y", "z"], initial: init.clone(), prerotate: vec![], threads: vec![vec![Batch(vec![("x", "a", "1"), ("y", "b", "1")])], reader.clone(), vec![Ingest("z", vec![("a", "5")])]], finals: Finals::None }, 2, if q { 4.0 } else { 200.0 }));
     v.push(b(VisBody { name: "batch|snapshot [reopened]", kind: Kind::Plain, workers: 0, keyspaces: vec!["x", "y"], initial: init.clone(), prerotate: vec![], threads: vec![writer.clone(), reader.clone()], finals: Finals::None }, if q { 2 } else { 3 }, if q { 3.0 } else { 120.0 }));
     v.push(b(VisBody { name: "sw-tx|snapshot [reopened]", kind: Kind::Sw, workers: 0, keyspaces: vec!["x", "y"], initial: init.clone(), prerotate: vec![], threads: vec![vec![Tx(vec![("x", "a", "1"), ("y", "b", "1")])], reader.clone()], finals: Finals::None }, 2, if q { 2.0 } else { 60.0 }));
     v.push(b(VisBody { name: "occ-tx|snapshot [reopened]", kind: Kind::Occ, workers: 0, keyspaces: vec!["x", "y"], initial: init.clone(), prerotate: vec![], threads: vec![vec![Tx(vec![("x", "a", "1"), ("y", "b", "1")])], reader.clone()], finals: Finals::None }, 2, if q { 2.0 } else { 60.0 }));
